@@ -1783,8 +1783,14 @@ func isValidLiteralValue(ttype Input, valueAST ast.Value) (bool, []string) {
 				messagesReduce = append(messagesReduce, fmt.Sprintf(`In field "%v": Unknown field.`, fieldAST.Name.Value))
 			}
 		}
-		// Ensure every defined field is valid.
-		for fieldName, field := range fields {
+		// Ensure every defined field is valid (in name order: the messages are user visible).
+		fieldNames := make([]string, 0, len(fields))
+		for fieldName := range fields {
+			fieldNames = append(fieldNames, fieldName)
+		}
+		sort.Strings(fieldNames)
+		for _, fieldName := range fieldNames {
+			field := fields[fieldName]
 			var fieldASTValue ast.Value
 			if fieldAST := fieldASTMap[fieldName]; fieldAST != nil {
 				fieldASTValue = fieldAST.Value
@@ -1825,6 +1831,16 @@ func (s suggestionListResult) Less(i, j int) bool {
 	return s.Distances[i] < s.Distances[j]
 }
 
+// byOptionName orders a suggestionListResult by option text (both slices move together).
+type byOptionName suggestionListResult
+
+func (s byOptionName) Len() int { return len(s.Options) }
+func (s byOptionName) Swap(i, j int) {
+	s.Options[i], s.Options[j] = s.Options[j], s.Options[i]
+	s.Distances[i], s.Distances[j] = s.Distances[j], s.Distances[i]
+}
+func (s byOptionName) Less(i, j int) bool { return s.Options[i] < s.Options[j] }
+
 // suggestionList Given an invalid input string and a list of valid options, returns a filtered
 // list of valid options sorted based on their similarity with the input.
 func suggestionList(input string, options []string) []string {
@@ -1841,9 +1857,11 @@ func suggestionList(input string, options []string) []string {
 			dists = append(dists, dist)
 		}
 	}
-	//sort results
+	//sort results: by distance, ties by name, whatever order the options came in
+	// (callers collect them by ranging over maps)
 	suggested := suggestionListResult{filteredOpts, dists}
-	sort.Sort(suggested)
+	sort.Stable(byOptionName(suggested))
+	sort.Stable(suggested)
 	return suggested.Options
 }
 
